@@ -1643,3 +1643,29 @@ _RT18 = {
 }
 for _p, _l in _RT18.items():
     VARIANTS.setdefault(_p, []).extend(_l)
+
+_RT19 = {
+    'C11': [
+        M('rt19-geometric-binned-again',
+          (MTF, "        xi = np.asarray(xi, dtype=float)\n"
+                "        phase = 2 * np.pi * np.outer(v, xi - np.mean(xi))\n"
+                "        mtf = np.abs(np.mean(np.exp(1j * phase), axis=1))\n",
+           "        A, edges = np.histogram(xi, bins=self.num_points+1)\n"
+           "        x = (edges[1:] + edges[:-1]) / 2\n"
+           "        mtf = np.abs(np.array([np.sum(A * np.exp(2j * np.pi * f_ "
+           "* x)) for f_ in v])) / np.sum(A)\n")),
+        M('rt19-geometric-no-2pi',
+          (MTF, 'phase = 2 * np.pi * np.outer(v, xi - np.mean(xi))',
+           'phase = np.pi * np.outer(v, xi - np.mean(xi))')),
+        M('rt19-mtf-grid-not-enlarged',
+          (MTF, 'self.grid_size = max(grid_size, 2 * num_rays)',
+           'self.grid_size = grid_size')),
+        M('rt19-psf-dark-samples-unmasked',
+          (PSF, 'phase = np.where(lit, opd, 0)', 'phase = opd')),
+        T('rt19-T-geometric-unshifted',
+          (MTF, 'phase = 2 * np.pi * np.outer(v, xi - np.mean(xi))',
+           'phase = 2 * np.pi * np.outer(v, xi)')),
+    ],
+}
+for _p, _l in _RT19.items():
+    VARIANTS.setdefault(_p, []).extend(_l)
